@@ -240,11 +240,8 @@ def _ids_filtered_out(cr, f, defs, adt, phase, rem_call):
                 pa = T.PhaseAssumption(h, adt)
                 if not pa.tests:
                     continue
-                R = A.reachable_cp(h, [0], cut_edges=pa.cut_edges(phase))
-                trues = [i for i, b in enumerate(h.bbs) if not b['cleanup'] and any(st[0][0] == 0 and not st[0][1] and st[1] == ['use', ['k', 'true']] for st in b['s'])]
-                # `a && !matches!(..)` leaves the result of the last operand in _0: any assignment of a non-constant counts as "may be true"
-                nonconst = [i for i, b in enumerate(h.bbs) if not b['cleanup'] and i in R and any(st[0][0] == 0 and not st[0][1] and not (st[1][0] == 'use' and st[1][1][0] == 'k') for st in b['s'])]
-                if not any(i in R for i in trues) and not nonconst:
+                vals = A.return_bool_values(h, cut_edges=pa.cut_edges(phase))
+                if vals and vals <= {False}:
                     return True
     return False
 
